@@ -140,7 +140,12 @@ static void one_round(long r, int fam, W* wp)
         int n = static_cast<int>(rng.range(3, 6));
         for (int i = 0; i < n; i++) {
             POp p{ops[rng.below(ops.size())], 0, static_cast<int>(rng.below(2)), 0};
-            if (p.op != LOAD && p.op != CAST) p.val = next++;
+            if (p.op != LOAD && p.op != CAST) {
+                // mostly unique values (unambiguous histories); sometimes a value that was written before, so that "the register
+                // already holds the desired / stored value" occurs as well
+                if (next > 1 && (p.op == CAS || p.op == STORE || p.op == EXCHANGE) && rng.chance(p.op == CAS ? 30 : 10)) p.val = static_cast<int>(rng.range(1, next - 1));
+                else p.val = next++;
+            }
             p.exp_id = static_cast<int>(rng.below(static_cast<uint64_t>(next)));
             sc.push_back(p);
         }
